@@ -827,6 +827,10 @@ static bool do_blk_join(int sig, int grace_ms)
 		cap_off[e] = rc;
 		cap_len[e] = blk.len - rc;
 	    }
+	    /* the call reports that nothing of the buffer was accepted, yet the peer has already been handed bytes
+	       of it (it read them while the call was in progress) */
+	    if (rc <= 0 && !blk.setfail && stream_rd[p] > blk.sstart)
+		mi = 1;
 	} else if (rc != 0 && blk.sidx >= 0) {
 	    /* the call failed: withdraw the tentative registration (it is the last one) */
 	    if (ndeliv[p] > blk.sidx)
